@@ -105,6 +105,10 @@ class CallableRaised(Exception):
     """Raised on purpose by generated user callables."""
 
 
+class CallableStop(CallableRaised, StopIteration):
+    """A generated callable's exception that is a StopIteration as well."""
+
+
 # ---- registry of update callables (pure functions of the old value; used identically by model and databases)
 def u_shift_1h(t):
     return t + timedelta(hours=1)
@@ -130,12 +134,28 @@ def u_meas_const(m):
     return "m2"
 
 
+def u_meas_m1(m):
+    return "m1"
+
+
 def u_tags_const(tags):
     return {"a": "upd"}
 
 
 def u_tags_echo(tags):
     return tags
+
+
+def u_tags_inplace(tags):
+    # edits the mapping it was handed and returns that same object
+    tags["a"] = "inp"
+    tags.pop("b", None)
+    return tags
+
+
+def u_fields_inplace(fields):
+    fields["f"] = 9
+    return fields
 
 
 def u_tags_upper(tags):
@@ -168,9 +188,9 @@ def u_fields_a0(fields):
 
 UPD = {
     "time": {"shift_1h": u_shift_1h, "time_same": u_time_same, "time_const": u_time_const, "time_other_zone": u_time_other_zone},
-    "measurement": {"meas_suffix": u_meas_suffix, "meas_const": u_meas_const},
-    "tags": {"tags_const": u_tags_const, "tags_echo": u_tags_echo, "tags_upper": u_tags_upper, "tags_empty": u_tags_empty},
-    "fields": {"fields_scale": u_fields_scale, "fields_const": u_fields_const, "fields_echo": u_fields_echo, "fields_a1": u_fields_a1, "fields_a0": u_fields_a0},
+    "measurement": {"meas_suffix": u_meas_suffix, "meas_const": u_meas_const, "meas_m1": u_meas_m1},
+    "tags": {"tags_const": u_tags_const, "tags_echo": u_tags_echo, "tags_upper": u_tags_upper, "tags_empty": u_tags_empty, "tags_inplace": u_tags_inplace},
+    "fields": {"fields_scale": u_fields_scale, "fields_const": u_fields_const, "fields_echo": u_fields_echo, "fields_a1": u_fields_a1, "fields_a0": u_fields_a0, "fields_inplace": u_fields_inplace},
 }
 BAD_VALUES = {
     # what a misbehaving callable returns, per slot
@@ -191,7 +211,9 @@ def make_callable(slot, spec):
     def f(x):
         state["n"] += 1
         if spec[0] == "fn_raise" and state["n"] == spec[1]:
-            raise CallableRaised("generated callable raises on call %d" % spec[1])
+            # on even calls the exception is also a StopIteration (e.g. next() on an exhausted iterator inside the user's function):
+            # code that runs user callbacks inside map() / a generator must not take it for the end of the iteration
+            raise (CallableStop if spec[1] % 2 == 0 else CallableRaised)("generated callable raises on call %d" % spec[1])
         if spec[0] == "fn_invalid" and state["n"] == spec[1]:
             return copy.deepcopy(BAD_VALUES[slot][spec[3] % len(BAD_VALUES[slot])])
         return base(x)
@@ -389,6 +411,30 @@ class Lockstep:
         self.model.insert(mp, meas)
         self.flags.add("insert")
 
+    def op_insert_reuse(self, mp, compact):
+        """The caller inserts a Point, edits its tags and fields in place and inserts the same object again (a loop that
+        recycles one Point).  Each insert stores what the object held at that moment.  Memory storage keeps the object itself
+        (aliasing pinned by the suite, see KF-mem-update-partial), so memory databases are given two separate points."""
+        mp = self._resolve_time(mp, True)
+        second = copy.deepcopy(mp)
+        second["tags"]["a"] = "again"
+        second["tags"].pop("b", None)
+        second["fields"]["f"] = 5
+        for real in self.reals:
+            p = gen.to_point(mp)
+            self.call(real, "insert", real.db.insert, p, compact_key_prefixes=compact)
+            if real.kind == "csv":
+                p.tags["a"] = "again"
+                p.tags.pop("b", None)
+                p.fields["f"] = 5
+            else:
+                p = gen.to_point(second)
+            self.call(real, "insert", real.db.insert, p, compact_key_prefixes=compact)
+        self.model.insert(mp, None)
+        self.model.insert(second, None)
+        self.flags.add("insert")
+        self.ctx.acc.cls("insert_reused_point_object")
+
     def op_insert_stamped(self, mp, n, via, bad_after=False):
         """Insert n points that carry no time (bare Point() with attributes assigned): they must be stamped with the insertion time
         (the frozen CLOCK).  bad_after: a non-Point follows them in the same insert_multiple call, which must raise after storing them."""
@@ -415,7 +461,7 @@ class Lockstep:
                 if r != 1:
                     self.fail("insert-return", real, "insert returned %r" % (r,))
             elif bad_after:
-                self.expect_raise(real, "insert_multiple-bad", lambda: target.insert_multiple(items, **kw), (TypeError,))
+                self.expect_raise(real, "insert_multiple-bad", lambda: target.insert_multiple(items, **kw), (TypeError, ValueError))
             else:
                 r = self.call(real, "insert_multiple", target.insert_multiple, items, **kw)
                 if r != n:
@@ -472,7 +518,7 @@ class Lockstep:
                 if r != len(items):
                     self.fail("insert_multiple-return", real, "returned %r for %d points" % (r, len(items)))
             else:
-                self.expect_raise(real, "insert_multiple-bad", fn, (UnicodeError,) if unencodable else (TypeError,))
+                self.expect_raise(real, "insert_multiple-bad", fn, (ValueError, OSError) if unencodable else (TypeError, ValueError))
         for m in ok_prefix:
             self.model.insert(m, use_meas)
         if bad_at is not None:
@@ -576,8 +622,11 @@ class Lockstep:
             else:
                 fn = lambda: real.db.update(qast.build(q), _measurement=m, **kw)  # noqa: E731
             if will_fault:
-                excs = (CallableRaised,) if fault[1][0] == "fn_raise" else (ValueError, TypeError)
-                self.expect_raise(real, "update-" + fault[1][0], fn, excs)
+                # a callable's own exception normally propagates as it is; the properties only say that the call raises
+                excs = (Exception,) if fault[1][0] == "fn_raise" else (ValueError, TypeError)
+                e = self.expect_raise(real, "update-" + fault[1][0], fn, excs)
+                if fault[1][0] == "fn_raise" and not isinstance(e, CallableRaised):
+                    self.ctx.acc.cls("callable_exception_wrapped_as_" + type(e).__name__)
             else:
                 r = self.call(real, "update", fn)
                 if r != exp:
@@ -634,7 +683,7 @@ class Lockstep:
                 if real.kind != "csv":
                     continue
                 p = Point(time=gen.T0 + timedelta(days=900), measurement="m1", tags={"a": "x\ud800"}, fields={"a": 1})
-                self.expect_raise(real, "bad_insert-" + kind, lambda: real.db.insert(p), (UnicodeError,))
+                self.expect_raise(real, "bad_insert-" + kind, lambda: real.db.insert(p), (ValueError, OSError))
             self.flags.add("raised")
             self.flags.add("raised_in_storage")
             return
@@ -729,7 +778,34 @@ class Lockstep:
         return self.op_remove(self.resolve_hit(spec, q2), self._m_of_hit(spec, m), via)
 
     def op_update_hit(self, spec, q2, m, args, via):
+        t = args.get("time")
+        if isinstance(t, list) and t and t[0] == "hit_time_in_zone":
+            from zoneinfo import ZoneInfo
+
+            base = self.model.points[spec[0] % len(self.model.points)]["time"] if self.model.points else gen.T0
+            args = dict(args, time=base.astimezone(ZoneInfo(t[1])))
+            self.ctx.acc.cls("update_time_same_instant_in_iana_zone" + ("_fold" if args["time"].fold else ""))
         return self.op_update(self.resolve_hit(spec, q2), self._m_of_hit(spec, m), args, via)
+
+    def op_move(self, spec, use_fn, via):
+        """Points of one measurement are renamed into another one; listings of both measurements, read through handles that
+        existed before the move (and through the database), are taken right before and right after it."""
+        if not self.model.points:
+            return
+        p = self.model.points[spec[0] % len(self.model.points)]
+        src = p["measurement"]
+        dest = "m2" if src != "m2" else "m1"
+        q = self.resolve_hit(spec, ["leaf", "time", [], ["noop"]])
+        tk = sorted(p["tags"])[:1] or ["a"]
+        fk = (sorted(p["fields"]) or ["a"])[0]
+        for m in (dest, src):
+            self.op_getters(m, tk, fk, "old_handle")
+        arg = ["fn", "meas_const" if dest == "m2" else "meas_m1"] if use_fn else dest
+        self.op_update(q, src, {"measurement": arg}, via)
+        for m, v in ((dest, "old_handle"), (src, "old_handle"), (dest, "db"), (None, "db")):
+            self.op_getters(m, tk, fk, v)
+        self.flags.add("moved_between_measurements")
+        self.ctx.acc.cls("move_%s_%s" % ("callable" if use_fn else "static", via))
 
     # ---- reads
     def op_probe(self, q, m, keys, via):
@@ -749,7 +825,14 @@ class Lockstep:
             else:
                 f = {"search": lambda **k: db.search(bq, m, **k), "count": lambda: db.count(bq, m), "contains": lambda: db.contains(bq, m), "get": lambda: db.get(bq, m), "select": lambda: db.select(keys, bq, m)}
             ctxs = "q=%s m=%r (served by %s, %d stored)" % (qast.show(q), m, served, n_all)
-            got = pts(self.call(real, "search", f["search"], sorted=False))
+            res = self.call(real, "search", f["search"], sorted=False)
+            got = pts(res)
+            if real.kind == "csv":
+                # the caller owns what a read hands back (CSV storage: freshly decoded points): scribbling on it must not
+                # leak into anything the database returns later
+                for P in res:
+                    P.tags["zz_scribble"] = "1"
+                    P.fields.clear()
             if got != match:
                 self.fail("search", real, "search(sorted=False) returned %d points %s, model matches %d %s; %s" % (len(got), brief(got), len(match), brief(match), ctxs))
             got = pts(self.call(real, "search", f["search"]))
